@@ -298,17 +298,9 @@ pub fn response_for(op: &Op, stamp: u16) -> Resp {
             TimeRequest::NotifyAfter { id, .. } => TimeResponse::DurationElapsed { id: *id },
             TimeRequest::Clear { id } => TimeResponse::Cleared { id: *id },
         }),
-        Op::Http(_) => Resp::Http(match stamp % 5 {
-            4 => HttpRes::ErrIo(format!("io{stamp}")),
-            3 => HttpRes::Ok(HttpResponse {
-                status: 404,
-                headers: vec![],
-                body: vec![b],
-            }),
-            k => HttpRes::Ok(HttpResponse {
-                // statuses stay inside 200..=202 (DESIGN §11: K5 must not fire here)
-                status: 200 + k,
-                headers: vec![
+        Op::Http(_) => {
+            let ok = |status: u16, extra: Option<(&str, String)>| {
+                let mut headers = vec![
                     HttpHeader {
                         name: "x-stamp".into(),
                         value: format!("{stamp}"),
@@ -317,10 +309,47 @@ pub fn response_for(op: &Op, stamp: u16) -> Resp {
                         name: "x-t".into(),
                         value: "t".into(),
                     },
-                ],
-                body: vec![b, 1],
-            }),
-        }),
+                ];
+                if let Some((n, v)) = extra {
+                    headers.push(HttpHeader {
+                        name: n.into(),
+                        value: v,
+                    });
+                }
+                HttpRes::Ok(HttpResponse {
+                    status,
+                    headers,
+                    body: vec![b, 1],
+                })
+            };
+            // statuses stay inside http-types' enum (DESIGN section 11: K5 must not fire
+            // here); 301 / 302 / 307 carry a Location (absolute, absolute, relative) for the
+            // requests that go through the redirect middleware
+            if !crate::app::redirects() {
+                return Resp::Http(match stamp % 5 {
+                    4 => HttpRes::ErrIo(format!("io{stamp}")),
+                    3 => HttpRes::Ok(HttpResponse {
+                        status: 404,
+                        headers: vec![],
+                        body: vec![b],
+                    }),
+                    k => ok(200 + k, None),
+                });
+            }
+            Resp::Http(match stamp % 7 {
+                0 => ok(201, None),
+                1 => HttpRes::Ok(HttpResponse {
+                    status: 404,
+                    headers: vec![],
+                    body: vec![b],
+                }),
+                2 => ok(302, Some(("location", format!("https://example.com/moved/{stamp}")))),
+                3 => ok(200, None),
+                4 => ok(307, Some(("location", format!("hop{stamp}")))),
+                5 => HttpRes::ErrIo(format!("io{stamp}")),
+                _ => ok(301, Some(("location", format!("https://example.org/perm/{stamp}")))),
+            })
+        }
     }
 }
 
